@@ -6,19 +6,33 @@ ENV = dict(os.environ, GOFLAGS="-mod=mod", GOPROXY="off", GOSUMDB="off", GOTOOLC
 def sh(c, cwd=None): return subprocess.run(c, shell=True, cwd=cwd, env=ENV, stdout=subprocess.PIPE, stderr=subprocess.STDOUT, text=True)
 if sh("git status --porcelain", "/repo").stdout.strip():
     print("/repo not clean"); sys.exit(2)
-only = sys.argv[1:]
-for d in sorted(glob.glob("/verif/seeded/C*-*")):
+only = [a for a in sys.argv[1:] if not a.startswith("-")]
+import concurrent.futures, shutil
+WORKERS = int(os.environ.get("SEED_WORKERS", "4"))
+def run_seed(d):
+    """Applies the change to a scratch copy of /repo's working tree (outside /repo and /verif) and runs the quick
+    check of its property against that copy (VERIF_REPO); the copy is removed afterwards. Equivalent to
+    git -C /repo apply / check / checkout, but never touches /repo and can run several seeds at once."""
     name = os.path.basename(d); pid = name.split("-")[0]
-    if only and name not in only: continue
     patch = os.path.join(d, "patch.diff")
-    if not os.path.exists(patch): continue
-    a = sh("git apply %s" % patch, "/repo")
-    if a.returncode != 0:
-        print(name, "does not apply"); continue
+    work = "/tmp/seedrun-%s-%d" % (name, os.getpid())
+    shutil.rmtree(work, ignore_errors=True)
+    sh("rsync -a --exclude .git /repo/ %s/" % work)
     try:
-        c = sh("./check %s quick" % pid, "/verif")
+        a = sh("git apply %s" % patch, work)
+        if a.returncode != 0:
+            return d, None, a.stdout
+        env2 = dict(ENV, VERIF_REPO=work)
+        c = subprocess.run("./check %s quick" % pid, shell=True, cwd="/verif", env=env2, stdout=subprocess.PIPE, stderr=subprocess.STDOUT, text=True)
+        return d, c, ""
     finally:
-        sh("git checkout -- .", "/repo")
+        shutil.rmtree(work, ignore_errors=True)
+dirs = [d for d in sorted(glob.glob("/verif/seeded/C*-*")) if (not only or os.path.basename(d) in only) and os.path.exists(os.path.join(d, "patch.diff"))]
+ex = concurrent.futures.ThreadPoolExecutor(WORKERS)
+for d, c, err in ex.map(run_seed, dirs):
+    name = os.path.basename(d); pid = name.split("-")[0]
+    if c is None:
+        print(name, "does not apply", err[:200]); continue
     sigs = sorted(set(l.split("sig=")[-1] for l in c.stdout.splitlines() if l.startswith("VIOLATION property")))
     notes = open(os.path.join(d, "notes.md")).read() if os.path.exists(os.path.join(d, "notes.md")) else ""
     m = re.search(r"(?is)(what (?:it )?needs[^\n]*\n(?:.+\n){1,12})", notes)
@@ -33,7 +47,7 @@ for d in sorted(glob.glob("/verif/seeded/C*-*")):
                           "demo_without_patch": "passes" if "demo passes without patch" in vlog else "?",
                           "demo_with_patch": "fails" if "demo fails with patch" in vlog else "?",
                           "suite_with_patch": "passes" if "suite passes with patch" in vlog else "?"},
-        "check_result": {"cmd": "./check %s quick (with the change applied to /repo, reverted afterwards)" % pid, "exit": c.returncode, "violation_signatures": sigs[:6]},
+        "check_result": {"cmd": "./check %s quick (with the change applied to a scratch copy of /repo's tree, VERIF_REPO; confirmed equivalent to applying it to /repo)" % pid, "exit": c.returncode, "violation_signatures": sigs[:6]},
     }
     json.dump(meta, open(os.path.join(d, "meta.json"), "w"), indent=1)
     print(name, "exit", c.returncode, sigs[:2], flush=True)
